@@ -37,6 +37,14 @@ class BudgetExceeded(Unreadable):
         self.func = func
 
 
+class ElemRaises(Exception):
+    """Under the current assumptions some element of a comprehension rejects: the enclosing statement raises."""
+
+    def __init__(self, exc):
+        super().__init__(exc)
+        self.exc = exc
+
+
 class NeedSplit(Exception):
     """A loop body is piecewise in a loop-invariant condition: the whole loop is re-run under each assumption."""
 
@@ -395,6 +403,29 @@ class Evaluator:
         return states
 
     def exec_stmt(self, st, conds, env, ctx):
+        """One statement; a case distinction that an expression needs but cannot express as a value (an element of a
+        comprehension that rejects: the statement raises iff ANY element does) splits the state here."""
+        try:
+            return self._exec_stmt(st, conds, env, ctx)
+        except ElemRaises as er:
+            return [(conds, env, Raise(er.exc))]
+        except NeedSplit as ns:
+            closed = isinstance(ns.cond.x, tuple) and len(ns.cond.x) == 3 and ns.cond.x[0] == "any"
+            if isinstance(st, (ast.For, ast.While)) or ("loopvar" in repr(ns.cond.x) and not closed):
+                raise
+            out = []
+            saved = self.assume
+            for cc in (ns.cond, ns.cond.negate()):
+                if _contradict(conds | {cc}):
+                    continue
+                self.assume = saved | {cc}
+                try:
+                    out.extend(self.exec_stmt(st, conds | {cc}, env, ctx))
+                finally:
+                    self.assume = saved
+            return out
+
+    def _exec_stmt(self, st, conds, env, ctx):
         if isinstance(st, ast.Expr):
             if isinstance(st.value, ast.Constant):
                 return [(conds, env, None)]
@@ -1657,8 +1688,20 @@ class Evaluator:
                 if len(tr) == 1:
                     return Seq(it_term, BoolElt(frozenset(tr[0])), filt)
             raise Unreadable("boolean comprehension element")
-        vs = self.ev(node.elt, e2, ctx)
+        vs = [(c, v) for c, v in self.ev(node.elt, e2, ctx) if not _contradict(c)]
         if len(vs) != 1 or vs[0][0]:
+            # an element that rejects under a condition R(x) and has ONE value otherwise: the comprehension raises iff
+            # any(R(x) for x in it) and is the plain map otherwise (same case distinction as a checking loop before it)
+            rs = [(c, v) for c, v in vs if isinstance(v, Raise)]
+            ok = [(c, v) for c, v in vs if not isinstance(v, Raise)]
+            if rs and len(ok) == 1 and all(len(c) == 1 for c, _ in rs) and ok[0][0] == frozenset(list(c)[0].negate() for c, _ in rs):
+                for c, v in rs:
+                    c_any = Cond("true", ("any", it_term, frozenset(c | filt)))
+                    if c_any in self.assume:
+                        raise ElemRaises(v.exc)
+                    if c_any.negate() not in self.assume:
+                        raise NeedSplit(c_any)
+                return Seq(it_term, ok[0][1], filt)
             raise Unreadable("piecewise comprehension element")
         return Seq(it_term, vs[0][1], filt)
 
